@@ -93,6 +93,13 @@ pub fn generate(seed: u64, tier: &str, sink: &mut Sink) {
                 if at_block < must {
                     return Err((format!("blocked-early-{}", tag), format!("a read blocked after {} bytes were handed out although {} payload bytes had arrived completely (pause at body offset {})", at_block, must, p)));
                 }
+                // the whole frame has arrived and its end is known from the framing itself (Content-Length
+                // reached, last-chunk and final line break read): the end-of-body read is satisfied from
+                // what has arrived as well, it never waits for the peer (seed C19-seed7; the usual keep-alive
+                // server goes silent exactly there)
+                if p == body.len() && !matches!(&spec_.body, BodySpec::Close(_)) && d.delivered_at_first_block.is_some() {
+                    return Err((format!("blocked-after-complete-{}", tag), format!("a read waited for the peer after the complete frame ({} payload bytes) had arrived", payload.len())));
+                }
                 if d.got.len() < must {
                     return Err((format!("undelivered-{}", tag), format!("only {} of {} arrived payload bytes were handed out", d.got.len(), must)));
                 }
